@@ -3352,6 +3352,15 @@ class NameCheckVisitor(node_visitor.ReplacingNodeVisitor):
             elts = []
             for elt in node.elts:
                 val = self.visit(elt)
+                if isinstance(val, _StarredValue) and isinstance(val.value, KnownValue):
+                    # *tuple[int, ...] in an annotation (PEP 646): iterating the alias
+                    # yields its unpacked form, which is what the subscript receives
+                    try:
+                        (unpacked,) = val.value.val
+                    except Exception:
+                        pass
+                    else:
+                        val = KnownValue(unpacked)
                 self.check_for_missing_generic_params(elt, val)
                 elts.append(val)
         else:
